@@ -8,7 +8,7 @@ ids = [p['id'] for p in props]
 
 NOTE_COMMON = ('Trusted: Coq 8.16.1 kernel incl. vm_compute (no native_compute); no axioms (Print Assumptions re-run on every check); '
                'hand-written Gallina model tied to /repo by extraction (ExtrOcamlBasic only) + differential correspondence on every run; '
-               'generated tables and translated source (tools/gen: data files, python-ast call sites / set sites / raise sites, and the source translators for the evaluators, check_args, tags, moparser, plural / header / date / language / charset checks) re-derived from /repo on every run; the translators are trusted. See DESIGN.md section 4 and 10.')
+               'generated tables and translated source (tools/gen: data files, python-ast call sites / set sites / raise sites, and the source translators for the evaluators, check_args, tags, moparser, plural / header / message / date / language / charset checks) re-derived from /repo on every run; the translators are trusted. See DESIGN.md section 4 and 10.')
 
 CHECKS = {
     'C05': dict(
@@ -137,9 +137,9 @@ CHECKS = {
         text='Coq theorems about the model of check_messages / _check_message_flags over ALL catalogs: duplicate-message-definition iff a (msgid, msgctxt) pair occurs twice among '
              'non-obsolete entries, reported once at the second occurrence; empty-file iff no non-header message and not possibly-hidden; translation-in-template, newline consistency, '
              'partially-translated, stray-previous-msgid, conflict-marker iffs; each flag rule (unknown, duplicate, conflicting, redundant, invalid-range); fuzzy/obsolete exemptions; a clean '
-             'catalog is silent; no crash. expat, \\w and character names are oracles.',
+             'catalog is silent; no crash. expat, \\w and character names are oracles. Source tie: Checker.check_messages (the entry loop, duplicate / empty-file / newline / partial-translation / stray-previous / conflict-marker / unusual-character bookkeeping, format dispatch) and _check_message_flags are translated from the working tree on every run and proved equal to the model (C16_source_tie_*).',
         design_ref='DESIGN.md 5 / C16; notes/C16.md',
-        technique='Coq proof (per-tag characterisations) + in-process recorded-tag correspondence on generated catalogs + rule oracle',
+        technique='Coq proof (per-tag characterisations) + in-process recorded-tag correspondence on generated catalogs + rule oracle + source translation (python ast -> Gallina) proved equal to the model',
         note=NOTE_COMMON + ' unusual-character completeness (first-seen set) and malformed-xml are soundness only. Known finding D21.'),
     'C19': dict(
         category='proof',
